@@ -65,7 +65,8 @@ def main():
             t = time.time()
             rc, out = sh('./check %s' % p, cwd=VERIF, env=env)
             lines = [l for l in out.split('\n') if l.startswith(('VIOLATION', 'UNDECIDED', 'OK ', 'KNOWN', 'obligation'))]
-            res[p] = dict(exit=rc, lines=[l[:300] for l in lines][:12], wall_s=round(time.time() - t, 1))
+            lines.sort(key=lambda l: 0 if l.startswith(('obligation', 'VIOLATION', 'UNDECIDED')) else 1)
+            res[p] = dict(exit=rc, lines=[l[:300] for l in lines][:16], wall_s=round(time.time() - t, 1))
             meta['ran'].append('VERIF_REPO=<worktree with change> ./check %s -> exit %d' % (p, rc))
             print(p, 'exit', rc)
             for l in lines[:6]:
